@@ -258,7 +258,9 @@ func cmdSet(c command_interface.CommandInterface, fields Val) {
 
 // ---- value generation
 
-func randOfKind(r *Rng, t reflect.Type, distinct bool) Val { return randOfKindMode(r, t, map[bool]int{false: 0, true: 1}[distinct]) }
+func randOfKind(r *Rng, t reflect.Type, distinct bool) Val {
+	return randOfKindMode(r, t, map[bool]int{false: 0, true: 1}[distinct])
+}
 
 // mode 0: random with boundary values, 1: bytes pairwise distinct, 2: smallest value of the type's domain
 func randOfKindMode(r *Rng, t reflect.Type, mode int) Val {
